@@ -24,6 +24,7 @@ struct MExp {
   bool named = false;       // already named in a violation report (C04)
   bool maybe_named = false; // named only inside a sequence-mismatch text: 0 or 1 end-of-life report accepted
   bool orphan = false;      // one of its sequence objects was destroyed while it was registered
+  bool mutated = false;     // the local its clauses name has been assigned to since the expectation was created
   bool scoped = false;      // created with the scoped macro form: lives exactly as long as its C++ scope
   unsigned line = 0;        // source line of the statement that created it (NAMED_ or scoped variant)
   int nseq = 0;
@@ -169,13 +170,15 @@ struct Model {
   }
   static bool with_accepts(const WithDesc& w, const MExp& e, const int* args) {
     int o = e.v[w.vi];
+    const int a0 = fn_desc(e.fn).arity ? args[0] : e.v[0];   // no parameters: the clause looks at the local v[0] instead
     switch (w.kind) {
-      case WK_LE: return args[0] <= o;
-      case WK_GE: return args[0] >= o;
-      case WK_NE: return args[0] != o;
-      case WK_EQ: return args[0] == o;
+      case WK_LE: return a0 <= o;
+      case WK_GE: return a0 >= o;
+      case WK_NE: return a0 != o;
+      case WK_EQ: return a0 == o;
       case WK_LT12: return args[0] < args[1];
-      case WK_NESNAP: return args[0] != (w.lr ? e.snap : e.snap0);
+      case WK_NESNAP: return a0 != (w.lr ? e.snap : e.snap0);
+      case WK_LTMAC: return a0 < 3;   // SIM_LIMIT
     }
     return false;
   }
